@@ -69,7 +69,7 @@ def effective_strategy(cfg):
 LISTED_BY = {
     'code_listed': ('code', cr.C1), 'code_listed2': ('code', cr.C2), 'code_unlisted': ('code', cr.CU),
     'level_listed': ('code', cr.C1), 'level_listed2': ('code', cr.C2), 'level_unlisted': ('code', cr.CU),
-    'exc_listed': ('exc', cr.E1), 'exc_sub': ('exc', cr.SubE1), 'exc_listed2': ('exc', cr.E2), 'exc_unlisted': ('exc', cr.EU),
+    'exc_same': ('exc', cr.E1), 'exc_listed': ('exc', cr.E1), 'exc_sub': ('exc', cr.SubE1), 'exc_listed2': ('exc', cr.E2), 'exc_unlisted': ('exc', cr.EU),
     'notjson': ('exc', ValueError), 'notresp': ('exc', ValueError), 'identity': ('exc', Exception),
 }
 
